@@ -333,7 +333,10 @@ def oracleStation (want : String) (o : OSt) (op obs : String) : OSt × Fail :=
             | none => if r.st != "Offline" then some now else none
       let isTokTx : Bool := match r.tx with | some b => (isTokenFrame b).isSome | none => false
       let sameTok : Bool := isTokTx && decide (o.lastTokenTx = r.tx) && !o.heardSinceToken
-      let enteringUse : Bool := r.st == "UseToken" && prevSt != "UseToken" && prevSt != "AwaitDataResponse"
+      -- a new token visit starts when UseToken is entered from another state, or when a station alone in its
+      -- ring passes the token to itself and is in UseToken again at the end of the same poll
+      let selfPass : Bool := match r.tx with | some b => (isTokenFrame b) == some (ts, ts) | none => false
+      let enteringUse : Bool := r.st == "UseToken" && ((prevSt != "UseToken" && prevSt != "AwaitDataResponse") || selfPass)
       let statusReqNow : Option Nat :=
         match lastDelivered with
         | some (.data h _) =>
